@@ -440,3 +440,6 @@ func Render(v avfs.VFS, name, p string) string {
 	}
 	return ""
 }
+
+// Itoa is strconv.Itoa (kept here so that harnesses need not import strconv).
+func Itoa(i int) string { return strconv.Itoa(i) }
